@@ -253,3 +253,41 @@ def _tzoff(z, rec):
             return int(z.utcoffset(_dt.datetime(2000, 1, 1)).total_seconds())
         except Exception:
             return 0
+
+
+# --------------------------------------------------------------------------- C10: five runs of one input
+NAIVE = 100000
+
+
+def _outcome(case, st):
+    c = dict(case)
+    c["settings"] = st
+    r = call_parse(c)
+    if r["exc"]:
+        o = [[], 0, r["exc"]]
+    elif not r["out"]:
+        o = []
+    else:
+        o = [r["out"], NAIVE if r["off"] == "naive" else r["off"]]
+    return o, r
+
+
+def call_c10(case):
+    """case: {s, kw, settings (without RELATIVE_BASE / strictness), b1, b2, R} -> outcomes of the
+    same input under (off,b1) (strict,b1) (strict,b2) (R,b1) (R,b2) + probe events of every run."""
+    base = dict(case.get("settings") or {})
+    runs = {}
+    probes = []
+    clock0 = dt_to_list(_dt.datetime.now())
+    for name, extra in (("outN", {"RELATIVE_BASE": case["b1"]}),
+                        ("outS", {"RELATIVE_BASE": case["b1"], "STRICT_PARSING": True}),
+                        ("outS2", {"RELATIVE_BASE": case["b2"], "STRICT_PARSING": True}),
+                        ("outR", {"RELATIVE_BASE": case["b1"], "REQUIRE_PARTS": case["R"]}),
+                        ("outR2", {"RELATIVE_BASE": case["b2"], "REQUIRE_PARTS": case["R"]})):
+        st = dict(base)
+        st.update(extra)
+        o, r = _outcome(case, st)
+        runs[name] = o
+        probes.extend(r["probe"])
+    return {"runs": runs, "probe": probes, "clock0": clock0, "clock1": dt_to_list(_dt.datetime.now()),
+            "unbound": list(_PROBE["unbound"]), "out": runs["outN"], "exc": ""}
